@@ -62,7 +62,7 @@ func budget(tier, fam string) int {
 		switch fam {
 		case "metamethod":
 			return 100
-		case "results", "interleave":
+		case "results", "interleave", "misc":
 			return 30
 		}
 		return 50
@@ -72,7 +72,7 @@ func budget(tier, fam string) int {
 		return 150
 	case "iterator-pairs", "close-handler-pairs":
 		return 90
-	case "results", "interleave":
+	case "results", "interleave", "misc":
 		return 40
 	}
 	return 60
@@ -183,6 +183,7 @@ func families(tier string) []*core.Family {
 	var fams []*core.Family
 	fams = append(fams, listFamily(tier, "results", resultsCases))
 	fams = append(fams, listFamily(tier, "interleave", interleaveCases))
+	fams = append(fams, listFamily(tier, "misc", miscCases))
 	for _, fd := range famDefs {
 		fams = append(fams, productFamily(tier, fd, false))
 	}
